@@ -183,7 +183,7 @@ func c07Trees(c *Ctx) []node {
 	// a Condition inside a Condition above a Stack (no way down: the outer expression is no Stack)
 	nested = append(nested, genStacks(1, 1, 2, atoms[:2], []string{"C2S", "C2A"}, kinds)...)
 	// pointers to interface variables (leaves) and to Stack variables (descendable, and re-pointable)
-	nested = append(nested, genStacks(1, 1, 1, atoms[:1], []string{"PI", "CPI", "PS", "CPS"}, kinds)...)
+	nested = append(nested, genStacks(1, 1, 1, atoms[:1], []string{"PI", "CPI", "PS", "CPS", "RVS", "RVC", "CRVS"}, kinds)...)
 	elems := append(append([]node{}, atoms...), nested...)
 	elems = append(elems, node{T: "zalias"}, node{T: "nilPA"}) // hollow values of the alias types, as siblings
 	var roots []node
